@@ -5,7 +5,7 @@
     wake-up and its resumption), purges, evictions, restarts, store faults. *)
 From Coq Require Import List Arith Bool ZArith Lia.
 From Pike Require Import Model.Sys Proofs.ListAux Proofs.SysInv Proofs.SysStep Proofs.SysTheorems Corr.SysCorr Corr.WakeCorr.
-From Pike Require Proofs.Lockset Proofs.Atomic.
+From Pike Require Proofs.Lockset Proofs.Atomic Proofs.SysWake.
 Import ListNotations.
 
 (** In every reachable state, for every entry of the current process life: at
@@ -73,6 +73,20 @@ Example C01_burst :
              (run (init 1000000 0 false false) ls)
   = Some ([TDone LFetching (Some 1) 0; TDone LHit (Some 1) 0; TDone LHit (Some 1) 0; TDone LHit (Some 1) 0], 1).
 Proof. vm_compute. reflexivity. Qed.
+
+(** "Every other request ... waits for that fetch": a request parked on an
+    entry stays parked under every step of every thread and of the environment
+    except the send of the fetcher that is completing THAT entry (a crash kills
+    it); it then re-enters get() on the same entry. *)
+Theorem C01_waiter_released_only_by_its_fetcher : forall s l s' i e,
+  step s l = Some s' ->
+  nth_error (ts s) i = Some (PWait e) ->
+  nth_error (ts s') i = Some (PWait e)
+  \/ (l = Crash /\ nth_error (ts s') i = Some PDead)
+  \/ (exists j c o, l = Run j c /\ nth_error (ts s) j = Some (PSending e o)
+                    /\ nth_error (ts s') i = Some (Pike.Proofs.SysWake.woken_pc s e)).
+Proof. exact Pike.Proofs.SysWake.waiter_released_only_by_its_fetcher. Qed.
+Print Assumptions C01_waiter_released_only_by_its_fetcher.
 
 (** ** atomicity of the dispatcher's lookup-or-create section (the [PLookup]
     step of Model/Sys.v is one step): discharged per run on the skeleton of
